@@ -73,8 +73,7 @@ Definition rt_spec_ok (emitted : bool) (o : pkg_obs) : bool :=
   | Some p =>
       match o_rt1 o with
       | Some _ => opt_eqb purl_eqb (o_rt2 o) (o_rt1 o)
-      | None => negb emitted || negb (in_D_type (p_type p)) || known_unparseable p ||
-                (is_nil (p_name p) && one_of (k_extractor (o_pkg o)) known_empty_name_extractors)
+      | None => negb emitted || known_unparseable p
       end
   end.
 
@@ -116,7 +115,7 @@ Definition bad_masks {A} (flags : A -> list bool) (l : list A) : list N :=
 (* counts used for the evidence *)
 Definition count_pkgs (l : list ccase) : N := N.of_nat (length (flat_map c_pkgs l)).
 Definition count_outside_D (l : list ccase) : N :=
-  N.of_nat (length (filter (fun o => match k_purl (o_pkg o) with Some p => negb (in_D_type (p_type p)) | None => false end)
+  N.of_nat (length (filter (fun o => match k_purl (o_pkg o) with Some p => known_unparseable p | None => false end)
                            (flat_map c_pkgs l))).
 Definition count_law_checked (l : list ccase) : N :=
   N.of_nat (length (filter (fun o => match k_purl (o_pkg o) with Some p => law_checked_domain p | None => false end)
